@@ -56,7 +56,9 @@ def genUtf8 : Nat → Nat → Rng → List Byte × Rng
     let w := min (w0 + 1) n
     let (x, r2) := r1.below 26
     let ch : List Byte :=
-      if w = 1 then [UInt8.ofNat (97 + x)]
+      -- one-byte characters: a letter, or (1 in 13) the NUL character, a space or a quote — U+0000 is a character like any other,
+      -- inside a string and as its last byte (a reader that treats strings as C strings shows here)
+      if w = 1 then (if x = 0 then [0] else if x = 1 then [0x20] else [UInt8.ofNat (97 + x)])
       else if w = 2 then [0xC3, UInt8.ofNat (0xA0 + x)]                 -- à … ù
       else if w = 3 then [0xE6, 0x97, UInt8.ofNat (0xA5 + x % 8)]       -- CJK
       else [0xF0, 0x9F, 0x98, UInt8.ofNat (0x80 + x)]                    -- emoji
